@@ -120,7 +120,7 @@ func callGFunction(L *LState, tailcall bool) bool {
 		wantret = gfnret
 	}
 
-	if tailcall && L.Parent != nil && L.stack.Sp() == 1 {
+	if L.Parent != nil && L.stack.Sp() == 1 {
 		switchToParentThread(L, wantret, false, true)
 		return true
 	}
